@@ -263,6 +263,15 @@ func (in *objIndex) control() error {
 		if in.Fields[fn].Len() != in.len() {
 			return fmt.Errorf("index and fields index must have the same size, len(index)=%d len(index[%s])=%d", in.len(), fn, in.Fields[fn].Len())
 		}
+		// every object must be indexed exactly once
+		if len(in.Fields[fn].objectIds) != in.len() {
+			return fmt.Errorf("field index %s has duplicated object ids", fn)
+		}
+		for id := range in.Fields[fn].objectIds {
+			if _, ok := in.ObjectIds[id]; !ok {
+				return fmt.Errorf("field index %s has unknown object id %d", fn, id)
+			}
+		}
 	}
 	return nil
 }
